@@ -106,6 +106,13 @@ def build_registry(with_messages=False):
     decl(d.Block)
     decl(bal.PublicKeyBalances)
     decl(cs.CoinState)
+    # protocol messages, as far as dispatch is concerned: only their class matters (no fields are modelled)
+    import skepticoin.networking.local_peer  # noqa: the repository's modules import each other in a cycle
+    import skepticoin.networking.messages as msg
+    for k in (msg.HelloMessage, msg.GetBlocksMessage, msg.InventoryMessage, msg.GetDataMessage, msg.DataMessage,
+              msg.GetPeersMessage, msg.PeersMessage):
+        ci = reg.declare(k, [], msg.Message)
+        ci.param_field = {}
     return reg
 
 
